@@ -227,6 +227,36 @@ def _alternatives(e: ast.AST, inv) -> List[Tuple[Optional[str], bool, ast.AST]]:
     return [(None, True, e)]
 
 
+class _TStore:
+    def __init__(self, key, stmt):
+        self.key, self.stmt, self.lineno = key, stmt, stmt.lineno
+
+
+def _table_stores(fn_node, table):
+    """Stores into ``self.<table>`` of the header reader, as (key expression, statement):
+    ``self.T[K] = V``; ``self.T.update((K, V) for ..)`` / ``update({K: V for ..})`` / ``update([(K, V) for ..])``.
+    Second result: writes to the table in another form (re-binding, setdefault, update of something else)."""
+    st, other = [], []
+    for n in walk_no_nested(fn_node):
+        if isinstance(n, ast.Assign) and isinstance(n.targets[0], ast.Subscript) and C.self_attr(n.targets[0].value) == table:
+            st.append(_TStore(n.targets[0].slice, n))
+        elif isinstance(n, (ast.Assign, ast.AugAssign, ast.AnnAssign)) and any(
+                C.self_attr(t) == table for t in (n.targets if isinstance(n, ast.Assign) else [n.target])):
+            other.append(n)
+        elif isinstance(n, ast.Expr) and isinstance(n.value, ast.Call) and isinstance(n.value.func, ast.Attribute) and \
+                C.self_attr(n.value.func.value) == table:
+            c = n.value
+            if c.func.attr == "update" and len(c.args) == 1 and not c.keywords:
+                a = c.args[0]
+                if isinstance(a, ast.DictComp):
+                    st.append(_TStore(a.key, n)); continue
+                if isinstance(a, (ast.GeneratorExp, ast.ListComp)) and isinstance(a.elt, ast.Tuple) and len(a.elt.elts) == 2:
+                    st.append(_TStore(a.elt.elts[0], n)); continue
+            if c.func.attr in ("update", "setdefault", "__setitem__"):
+                other.append(n)
+    return st, other
+
+
 def rule_r3(ctx) -> List[R.Inst]:
     M = ctx.M
     rid = "C04.R3"
@@ -280,15 +310,19 @@ def rule_r3(ctx) -> List[R.Inst]:
     # ---- (b) #BPMxx and #WAVxx tables in the header reader
     file_h = M.mods[hdr.mod].rel
     for table, prefix, key in (("exbpms", b"BPM", "table:#BPMxx"), ("samples", b"WAV", "table:#WAVxx")):
-        st = [n for n in walk_no_nested(hdr.node) if isinstance(n, ast.Assign) and isinstance(n.targets[0], ast.Subscript)
-              and C.self_attr(n.targets[0].value) == table]
+        st, other = _table_stores(hdr.node, table)
+        if len(st) != 1 and other:
+            insts.append(R.undec(rid, key, file_h, other[0].lineno,
+                                 f"self.{table} is written in a form that is not followed here: '{unparse(other[0])[:80]}'"))
+            continue
         if len(st) != 1:
             insts.append(R.viol(rid, key, file_h, hdr.node.lineno,
                                 f"the header reader no longer fills self.{table}: ids on channel "
                                 f"{'08' if table == 'exbpms' else '1x/2x'} resolve to nothing",
                                 construct=f"{len(st)} stores into self.{table}"))
             continue
-        sl = st[0].targets[0].slice
+        sl = st[0].key
+        st = [st[0].stmt]
         sl_txt = unparse(sl)
         # id = last two bytes of the key
         ok_slice = isinstance(sl, ast.Subscript) and isinstance(sl.slice, ast.Slice) and sl.slice.upper is None and (
